@@ -10,10 +10,10 @@ import os, sys, json, subprocess, time, fcntl, hashlib, re, shutil, random, glob
 
 VERIF = os.path.dirname(os.path.dirname(os.path.abspath(__file__)))
 REPO = os.environ.get("VERIF_REPO", "/repo")
-BUILD = os.path.join(VERIF, "build")
+BUILD = os.environ.get("VERIF_BUILD", os.path.join(VERIF, "build"))      # overridable so that a seeded tree can be checked next to a running check
 SPEC = os.path.join(VERIF, "spec")
 HARNESS = os.path.join(VERIF, "harness")
-EVID = os.path.join(VERIF, "evidence")
+EVID = os.environ.get("VERIF_EVID", os.path.join(VERIF, "evidence"))
 GUARD = "GMSSL_VERIF"
 NCPU = os.cpu_count() or 4
 
